@@ -22,7 +22,7 @@ Inductive tree :=
 | TSubx (keep : nat) (t : tree)               (* SUBX_EVAL <keep> *)
 | TIfElse (c a b : tree)
 | TScope (t : tree)
-| TBlock (t : tree)
+| TBlock (id : N) (t : tree)               (* id: position of the block in the program text (not in tree.hh) *)
 | TBind (n : name)
 | TRead (n : name)
 | TNop
